@@ -46,6 +46,16 @@ def closeStep (w : World) : SExp → World × String
     | none => (w, "bad-name")
   | _ => (w, "bad-op")
 
+/-- the side conditions of the every-level completeness theorem on the world the script builds: acyclic close graph (ranked by
+    depth), no flushing wrappers; evaluated after every operation, reported for the whole script -/
+def handleCloseGeom (args : List SExp) : String :=
+  let (ok, _) := args.foldl (fun (acc : Bool × World) op =>
+    let (w', _) := closeStep acc.2 op
+    let fine := rankedB (depthRank closeFuel w'.heap) w'.heap && (List.range w'.heap.length).all fun i => decide (depthRank closeFuel w'.heap i < closeFuel)
+    (acc.1 && fine, w')) (true, ({} : World))
+  let (_, wf) := args.foldl (fun (acc : Unit × World) op => ((), (closeStep acc.2 op).1)) ((), ({} : World))
+  (if ok then "acyclic" else "CYCLIC-OR-TOO-DEEP") ++ (if noFlushB wf.heap then " noflush" else " flushing-wrapper")
+
 def handleClose (args : List SExp) : String :=
   let (_, outs) := args.foldl (fun (acc : World × List String) op =>
     let (w', o) := closeStep acc.1 op; (w', acc.2 ++ [o])) (({} : World), [])
